@@ -324,7 +324,8 @@ CHECKS["C10"] = {
             "integer-sampler call of a signing attempt; an independent Algorithm 11 (own natural-order FFT, split/merge and ffLDL tree "
             "built from the basis) is replayed on the recorded OUTPUTS and must predict every recorded centre (1e-6 relative) and "
             "width (1e-9): an exact oracle for the tree (L entries and leaves) and the recursion, including attempts after forced "
-            "norm rejections. distinct_nontrivial = distinct (key, direction) pairs tested + signing attempts replayed.",
+            "norm rejections; in addition the s2 decoded from the signature must equal -(z0 f + z1 F) computed exactly over "
+            "Z[X]/(X^n+1) from the recorded sampler outputs (the emitted vector is the sampled lattice point). distinct_nontrivial = distinct (key, direction) pairs tested + signing attempts replayed.",
     "assumptions": ["resolution: about 0.5% on pooled second moments, 1% per bin, 10% per single direction (quick); 3x finer thorough", "reference codec/hash/ring and f64 Gram-Schmidt of the harness (the latter cross-validated against the tree leaves in C04)"],
     "legs": [{"name": "transcripts"}, {"name": "ffsampling-trace"}],
     "technique": "offline statistical checker over a recorded transcript of signature vectors: moment tests along the secret basis rows and Gram-Schmidt directions with empirical standard errors",
